@@ -41,6 +41,10 @@ fn framing_oracle(t: &Target, b: &[u8], g: &Got) -> Option<String> {
             )),
         };
     }
+    // lengths up to the cap are always framed: TooLarge is never an answer here
+    if matches!(g, Got::Error("TooLarge") | Got::Failure("TooLarge")) {
+        return Some(format!("declared length {} is within the cap of {} but the record is refused with TooLarge", len, CAP));
+    }
     // the whole record is present
     match g {
         Got::Incomplete(k) => Some(format!(
@@ -275,6 +279,27 @@ fn main() {
     sink.merge(sd);
     sink.sample(8, || json!({"func":"parse_tls_plaintext","input":"1803030005010009010 2".replace(' ', ""),"note":"payload sweep: complete record, inner length lies"}));
 
+    // (F) the cap does not depend on the version: all 65536 versions x lengths around the cap
+    let sf = par_run(run.threads, 256, |k, sink| {
+        let mut buf = vec![0u8; 5 + 64];
+        for lo in 0..256usize {
+            for len in [16384usize, 16385, 16639, 16640, 16641, 16642, 18432, 32768, 65535] {
+                for ty in [0x16u8, 0x17] {
+                    buf[0] = ty;
+                    buf[1] = k as u8;
+                    buf[2] = lo as u8;
+                    buf[3] = (len >> 8) as u8;
+                    buf[4] = len as u8;
+                    for t in [&PLAINTEXT, &ENCRYPTED, &RAW_RECORD] {
+                        one(t, &buf, sink);
+                        one(t, &buf[..5], sink);
+                    }
+                }
+            }
+        }
+    });
+    sink.merge(sf);
+
     // (E) "all trailing bytes": records inside buffers whose total size crosses the 16-bit, 17-bit and
     //     20-bit boundaries (a length computed in a narrower integer type shows only here)
     let big_lens: Vec<usize> = vec![0, 1, 5, 100, 255, 256, 16384, 16640];
@@ -321,7 +346,7 @@ fn main() {
     let mut cov = Map::new();
     cov.insert("exhaustive".into(), json!(true));
     cov.insert("rule".into(), json!(format!(
-        "(A) all 256 content types x all 65536 declared lengths (quick tier: 12 types with all lengths, the other 244 types with ~800 boundary lengths) at cut points {{0..6, 5+len/2, 5+len-1, 5+len, 5+len+1, 5+len+7}} for parse_tls_encrypted / parse_tls_raw_record; the same for parse_tls_plaintext on 8 content types (complete records only at 76 boundary lengths); (B) every prefix of records of the boundary lengths (middle of long records every 97th byte in quick); (C) all 65536 versions; (D) complete records whose payload is every string of length <= {} over a per-type positional alphabet; (E) records of 8 lengths x 4 types followed by trailing data such that the buffer size crosses 2^16, 2^17 and 2^20 (+-6 bytes, with and without the record length). Oracle: reference framing (Incomplete iff strict prefix with exact Needed, TooLarge above 2^14+256, exact consumption, header fields, payload and remainder by position) plus the strict record walker. Non-trivial: everything but inputs cut inside the 5-byte header", maxn)));
+        "(A) all 256 content types x all 65536 declared lengths (quick tier: 12 types with all lengths, the other 244 types with ~800 boundary lengths) at cut points {{0..6, 5+len/2, 5+len-1, 5+len, 5+len+1, 5+len+7}} for parse_tls_encrypted / parse_tls_raw_record; the same for parse_tls_plaintext on 8 content types (complete records only at 76 boundary lengths); (B) every prefix of records of the boundary lengths (middle of long records every 97th byte in quick); (C) all 65536 versions; (D) complete records whose payload is every string of length <= {} over a per-type positional alphabet; (F) all 65536 versions x 9 declared lengths around the cap x 2 types (truncated buffers); (E) records of 8 lengths x 4 types followed by trailing data such that the buffer size crosses 2^16, 2^17 and 2^20 (+-6 bytes, with and without the record length). Oracle: reference framing (Incomplete iff strict prefix with exact Needed, TooLarge above 2^14+256, exact consumption, header fields, payload and remainder by position) plus the strict record walker. Non-trivial: everything but inputs cut inside the 5-byte header", maxn)));
     let code = run.finish(
         &sink,
         cov,
